@@ -457,6 +457,15 @@ func parseDir(dir string, files ...string) (*token.FileSet, map[string]*ast.Func
 			case *ast.FuncDecl:
 				if x.Recv == nil && x.Body != nil {
 					funcs[x.Name.Name] = x
+				} else if x.Body != nil && len(x.Recv.List) == 1 {
+					// methods under "T.name"
+					t := x.Recv.List[0].Type
+					if st, ok := t.(*ast.StarExpr); ok {
+						t = st.X
+					}
+					if id, ok := t.(*ast.Ident); ok {
+						funcs[id.Name+"."+x.Name.Name] = x
+					}
 				}
 			case *ast.GenDecl:
 				if x.Tok != token.VAR {
@@ -553,6 +562,25 @@ func ruleScannerAgree(c *Ctx, rule, tableRule string) {
 	if n == 0 {
 		c.Und(rule, "state functions", "-", "no state function of the module has a sibling of the same name in encoding/json")
 	}
+	// the scanner's helpers (confirmed copies of the reference, frozen list): the
+	// set of paths - conditions taken, effects, result - equals the reference's
+	for _, name := range []string{"scanner.eof", "scanner.pushParseState", "scanner.popParseState", "scanner.reset", "scanner.error", "checkValid", "isSpace"} {
+		rf, gf := rfuncs[name], gfuncs[name]
+		if rf == nil || gf == nil {
+			continue
+		}
+		n++
+		a, e1 := pathTraces(rfset, rf, rfuncs)
+		b, e2 := pathTraces(gfset, gf, gfuncs)
+		pos := rfset.Position(rf.Pos())
+		where := fmt.Sprintf("stdlib/json/%s:%d", pos.Filename, pos.Line)
+		if e1 != "" || e2 != "" {
+			c.Und(rule, "scanner helper "+name, where, "could not be interpreted ("+e1+e2+")")
+			continue
+		}
+		c.Check(rule, "scanner helper "+name, where, a == b, "the same paths (conditions in the same order, effects, results) as encoding/json's",
+			"the helper's paths differ from encoding/json's: module {"+cut(a, 200)+"} reference {"+cut(b, 200)+"}: the scanner reports the end of input, an error or a nesting change under other conditions than the standard one (a document with one garbage byte after the top-level value is reported valid)")
+	}
 	// character class tables
 	m := 0
 	var tnames []string
@@ -607,4 +635,24 @@ func cut(s string, n int) string {
 		return s[:n] + "..."
 	}
 	return s
+}
+
+// pathTraces: the canonical set of paths through a function all of whose
+// conditions are treated as opaque, named branches.
+func pathTraces(fset *token.FileSet, fd *ast.FuncDecl, funcs map[string]*ast.FuncDecl) (string, string) {
+	e := &scanEval{fset: fset, cName: "\x00none", funcs: funcs, limit: 20000}
+	var one byteSet
+	one[0] = true
+	fall := e.run(fd.Body.List, one, nil)
+	out := append([]string(nil), e.out[0]...)
+	for k, s := range fall {
+		if s[0] {
+			out = append(out, k+" ; <end>")
+		}
+	}
+	if e.aborted != "" {
+		return "", e.aborted
+	}
+	sort.Strings(out)
+	return strings.Join(out, " || "), ""
 }
